@@ -72,8 +72,17 @@ func c05After(w *World, path []fsx.Op, r fsx.Reply, implFail bool, mis *reffs.Mi
 	}
 	if path[len(path)-1].K == "DELETEALL" {
 		b, i := w.FreeCounts()
-		if b != w.FreshB || i != w.FreshI {
-			viol("deleteall|free-space-not-restored", fmt.Sprintf("after deleting everything %d blocks and %d inodes are free; the fresh file system had %d and %d", b, i, w.FreshB, w.FreshI))
+		// (a directory never gives its own blocks back while it exists, and the root always exists: what it grew to
+		// beyond its first block - more than 30 names at once - stays in use and reachable; everything else must be free)
+		fr5 := w.Fsck()
+		rootBlocks := uint64(0)
+		for _, owner := range fr5.Owned {
+			if owner == 1 {
+				rootBlocks++
+			}
+		}
+		if b+rootBlocks != w.FreshB+1 || i != w.FreshI {
+			viol("deleteall|free-space-not-restored", fmt.Sprintf("after deleting everything %d blocks and %d inodes are free (the root directory holds %d blocks); the fresh file system had %d and %d (root directory: 1 block)", b, i, rootBlocks, w.FreshB, w.FreshI))
 		}
 	}
 }
